@@ -6,7 +6,9 @@ EXTENDS Surrogate, Json, IOUtils
 Traces == JsonDeserialize(IOEnv.TRACE_FILE)
 VARIABLES tid, l
 Ev == Traces[tid][l]
-Clause(name, b) == IF b THEN TRUE ELSE PrintT(<<"FAIL", tid, l, name>>) /\ FALSE
+\* diagnostic mode (ALLCLAUSES = "1", trace-mutation self-test only): a failing clause is reported and evaluation goes on, so that clauses
+\* shadowed by an earlier one in the same conjunction are exercised too; in every registered check ALLCLAUSES = "0"
+Clause(name, b) == IF b THEN TRUE ELSE PrintT(<<"FAIL", tid, l, name>>) /\ (IOEnv.ALLCLAUSES = "1")
 ConfigEv(e) == /\ Clause("config-first", l = 1)
                /\ ts' = e.ts /\ mode' = e.mode /\ trained' = e.trained
                /\ UNCHANGED <<ec, pc, xs, trains, objcalls, nreq, lastkind>>
